@@ -47,7 +47,9 @@ func stacks() map[int64][]string {
 }
 
 // leaked lists library goroutines (and harness tasks stuck inside library calls) that still exist.
-func leaked(w *World, ignoreAcceptLoop bool) []string {
+// base: tasks that existed before the connection was made (the acceptor's own goroutines, whatever
+// they are called); they are ignored while the acceptor is still serving.
+func leaked(w *World, base map[string]bool) []string {
 	st := stacks()
 	var out []string
 	for _, t := range w.Sched.Alive() {
@@ -55,18 +57,18 @@ func leaked(w *World, ignoreAcceptLoop bool) []string {
 		if len(fr) == 0 {
 			continue // no library frame on its stack: not the library's goroutine, not stuck in the library
 		}
+		if base[t.ID] {
+			continue
+		}
 		top := fr[0]
 		if t.Harness {
-			if t.Name == "driver" || (ignoreAcceptLoop && t.Name == "acceptor.ListenAndServe") {
+			if t.Name == "driver" {
 				continue
 			}
 			out = append(out, "caller-blocked-in:"+top)
 			continue
 		}
 		root := fr[len(fr)-1]
-		if ignoreAcceptLoop && (strings.Contains(root, "ListenAndServe.func1") && strings.Contains(top, "ListenAndServe.func1")) {
-			continue
-		}
 		out = append(out, top+"<-"+root)
 	}
 	sort.Strings(out)
@@ -315,7 +317,11 @@ func c13(w *World) {
 		w.Violate("sender-blocked", key, fmt.Sprintf("%d of %d application senders that were in flight at the moment of %s are still blocked", nSenders-sendersDone, nSenders, cause))
 	}
 	// (5) no library goroutine remains
-	if l := leaked(w, role == "acceptor" && !sc.Acc.Served); len(l) > 0 {
+	var base map[string]bool
+	if role == "acceptor" && !sc.Acc.Served {
+		base = sc.BaseTasks
+	}
+	if l := leaked(w, base); len(l) > 0 {
 		w.Violate("goroutine-leak", key+"|"+strings.Join(dedup(l), ","), fmt.Sprintf("%v after %s at %s these library goroutines still exist: %v", 2*S, cause, point, l))
 	}
 	// finally the acceptor itself
@@ -326,7 +332,7 @@ func c13(w *World) {
 		if !sc.Acc.Served {
 			w.Violate("serve-not-returned", role+"/acceptor-close", "Acceptor.ListenAndServe has not returned 1s after Acceptor.Close")
 		}
-		if l := leaked(w, false); len(l) > 0 {
+		if l := leaked(w, nil); len(l) > 0 {
 			w.Violate("goroutine-leak", role+"/acceptor-close|"+strings.Join(dedup(l), ","), fmt.Sprintf("after Acceptor.Close these library goroutines still exist: %v", l))
 		}
 	}
